@@ -15,6 +15,18 @@ use std::path::{Path, PathBuf};
 use std::process::{Command, Stdio};
 use std::time::{Duration, Instant};
 
+static SCRATCH: std::sync::OnceLock<PathBuf> = std::sync::OnceLock::new();
+
+/// a fresh temporary directory under the shard's work directory (removed on drop)
+pub fn scratch_dir() -> tempfile::TempDir {
+    let base = SCRATCH.get_or_init(|| {
+        let p = PathBuf::from(verif_root()).join(".work").join(format!("scratch-{}", std::process::id()));
+        std::fs::create_dir_all(&p).unwrap();
+        p
+    });
+    tempfile::Builder::new().prefix("c").tempdir_in(base).unwrap()
+}
+
 pub fn verif_root() -> String {
     std::env::var("VERIF_ROOT").unwrap_or_else(|_| "/verif".to_string())
 }
@@ -124,6 +136,8 @@ fn shard(a: &[String]) {
     let workdir = PathBuf::from(&a[5]);
     let out = PathBuf::from(&a[6]);
     std::fs::create_dir_all(&workdir).unwrap();
+    let _ = SCRATCH.set(workdir.join("scratch"));
+    std::fs::create_dir_all(workdir.join("scratch")).unwrap();
     engine::install_panic_hook();
     let known: Vec<String> = load_known().into_iter().filter(|k| k.prop == prop.id).map(|k| k.sig).collect();
     let mut ctx = engine::Ctx::new(prop.id, tier, seed, i, n, workdir, known);
